@@ -6,7 +6,7 @@ every cursor access under the channel lock (L-GUARDED), balanced locking
 from .. import lockrules as LR
 from ..locks import LockAnalysis
 from ..channelrules import (CHANNEL_FIELDS, channel_functions, rule_write_guard,
-                            rule_encaps, rule_dimensions, rule_stale_across_wait, rule_cursor_pair)
+                            rule_encaps, rule_dimensions, rule_stale_across_wait, rule_cursor_pair, rule_cursor_copy)
 
 EXPLANATION = (
     "Static analysis over clang CFGs. R-WRITE-GUARD: a path-sensitive dataflow "
@@ -41,6 +41,7 @@ def run(ctx, res):
                       exempt_fns={"video_sink_bytes_waiting": "advisory statistic, read-only, outside every property"})
     rule_dimensions(prog, res)
     rule_cursor_pair(prog, res, la)
+    rule_cursor_copy(prog, res, la)
     res.require_min("R-WRITE-GUARD", 1)
     res.require_min("R-ENCAPS", 5)
     res.require_min("L-GUARDED", 40)
